@@ -55,30 +55,8 @@ func checkC05(c *Ctx) (string, []string) {
 		dst := exprStr(call.Call.Args[0], shapeOpts)
 		_, after := findPath(pathQuery{start: in, target: isFaultRet})
 		c.Check(!after, "C05.store-checks-first", "PVM.storeIntoMemory · copy → "+dst+" · no later fault", in.Pos(), "no fault/panic return reachable after this write", "a store can modify a page and then still fault (partial write of a faulting store)")
-		// own page guards: the Lookup that produced this page
-		page := pageOf(call.Call.Args[0])
-		okG := false
-		if page != nil {
-			found := condEdges(st, func(v ssa.Value) (bool, bool) {
-				ex, ok := v.(*ssa.Extract)
-				return ok && ex.Tuple == ssa.Value(page) && ex.Index == 1, true
-			})
-			rw := condEdges(st, func(v ssa.Value) (bool, bool) {
-				b, ok := v.(*ssa.BinOp)
-				if !ok || (b.Op != token.NEQ && b.Op != token.EQL) {
-					return false, false
-				}
-				s := exprStr(b, shapeOpts)
-				if !strings.Contains(s, ".Access") || !strings.Contains(s, "2") {
-					return false, false
-				}
-				if !derivesFrom(b.X, page) && !derivesFrom(b.Y, page) {
-					return false, false
-				}
-				return true, b.Op == token.EQL
-			})
-			okG = guardedBy(st, in, found) && guardedBy(st, in, rw)
-		}
+		// own page guards: the Lookup that produced this page, in this function or in a (page, ok) helper
+		okG := pageGuarded(st, in, call.Call.Args[0])
 		c.Check(okG, "C05.store-checks-first", "PVM.storeIntoMemory · copy → "+dst+" · page guards", in.Pos(), "page present and ReadWrite on every path to this write", "a page is written without a dominating presence test and Access == ReadWrite test of that same page")
 	})
 
@@ -241,7 +219,7 @@ func checkC05(c *Ctx) (string, []string) {
 		})
 	}
 
-	c.Rule("C05.range-check-shape", "isReadable/isWriteable implement the GP range test and differ only in the page predicate", 6)
+	c.Rule("C05.range-check-shape", "isReadable/isWriteable implement the GP range test (decided by evaluation on boundary starts and lengths) and differ only in the page predicate", 8)
 	e.ruleRangeCheckShape("C05.range-check-shape")
 	return "Guest-memory protection mechanisms decided on SSA: stores write nothing before all presence/Access tests of every page involved; the <2^16 panic precedes every page lookup and page faults carry the access address; load handlers leave the destination register untouched unless the load succeeded; the heap grows only through the two sbrk handlers under identical wrap and limit tests with fresh zeroed pages; the host-call range tests have the GP shape. Does not decide Access tests on reads (inaccessible pages are never materialised) nor the pages host call (C33).",
 		[]string{"canonical expression rendering", "register operands of the two engines are normalised to REG for sibling comparison"}
@@ -273,6 +251,96 @@ func regNormalize(s string) string {
 		}
 	}
 	return out
+}
+
+// pageGuarded: the page written at `at` (value pv) comes from a page-table
+// lookup whose presence test and Access == ReadWrite test hold on every path
+// to `at`. The lookup may sit in a helper returning (page, ok): then every
+// ok-return of the helper is so guarded inside the helper, and `at` is
+// guarded by the helper's ok result.
+func pageGuarded(f *ssa.Function, at ssa.Instruction, pv ssa.Value) bool {
+	if page := pageOf(pv); page != nil {
+		found := condEdges(f, func(v ssa.Value) (bool, bool) {
+			ex, ok := v.(*ssa.Extract)
+			return ok && ex.Tuple == ssa.Value(page) && ex.Index == 1, true
+		})
+		rw := condEdges(f, func(v ssa.Value) (bool, bool) {
+			b, ok := v.(*ssa.BinOp)
+			if !ok || (b.Op != token.NEQ && b.Op != token.EQL) {
+				return false, false
+			}
+			s := exprStr(b, shapeOpts)
+			if !strings.Contains(s, ".Access") || !strings.Contains(s, "2") {
+				return false, false
+			}
+			if !derivesFrom(b.X, page) && !derivesFrom(b.Y, page) {
+				return false, false
+			}
+			return true, b.Op == token.EQL
+		})
+		return guardedBy(f, at, found) && guardedBy(f, at, rw)
+	}
+	hc := pageHelperCall(pv)
+	if hc == nil {
+		return false
+	}
+	h := hc.Call.StaticCallee()
+	// the helper: every return that may report ok returns a guarded page of its own lookup
+	okRets := 0
+	sound := true
+	allInstrs(h, func(in ssa.Instruction) {
+		r, isR := in.(*ssa.Return)
+		if !isR || len(r.Results) != 2 {
+			return
+		}
+		if k, isC := r.Results[1].(*ssa.Const); isC && k.Value != nil && k.Value.String() == "false" {
+			return
+		}
+		okRets++
+		if k, isC := r.Results[1].(*ssa.Const); !isC || k.Value == nil || k.Value.String() != "true" {
+			// ok forwarded from the lookup itself: the presence test is the result; the access test must still dominate
+			sound = false
+			return
+		}
+		if !pageGuarded(h, r, r.Results[0]) {
+			sound = false
+		}
+	})
+	if okRets == 0 || !sound {
+		return false
+	}
+	okEdge := condEdges(f, func(v ssa.Value) (bool, bool) {
+		ex, ok := v.(*ssa.Extract)
+		return ok && ex.Tuple == ssa.Value(hc) && ex.Index == 1, true
+	})
+	return guardedBy(f, at, okEdge)
+}
+
+// pageHelperCall: pv derives from result #0 of a call to a module helper returning (page, ok).
+func pageHelperCall(v ssa.Value) *ssa.Call {
+	for i := 0; i < 20 && v != nil; i++ {
+		switch x := v.(type) {
+		case *ssa.Extract:
+			if call, ok := x.Tuple.(*ssa.Call); ok && x.Index == 0 {
+				if g := call.Call.StaticCallee(); g != nil && len(g.Blocks) > 0 && g.Signature.Results().Len() == 2 && isBoolT(g.Signature.Results().At(1).Type()) {
+					return call
+				}
+				return nil
+			}
+			v = x.Tuple
+		case *ssa.UnOp:
+			v = x.X
+		case *ssa.FieldAddr:
+			v = x.X
+		case *ssa.Slice:
+			v = x.X
+		case *ssa.IndexAddr:
+			v = x.X
+		default:
+			return nil
+		}
+	}
+	return nil
 }
 
 // pageOf: the Pages lookup a page-value expression derives from.
